@@ -1,7 +1,7 @@
 (* C06 - Functions and scopes: locals stay local, everything else is global. *)
 From Coq Require Import Floats.
 From EF Require Import Model.Base Gen.Tables Model.Code Model.Value Model.Env Model.Reflect Model.Builtins Model.Compiler
-                       Model.VM Model.Api Proofs.EnvProofs Proofs.CallProofs.
+                       Model.VM Model.Api Model.Ast Spec.ExecFun Proofs.EnvProofs Proofs.CallProofs Proofs.ProgProofs.
 Open Scope N_scope.
 
 (* a declaration in a fresh scope shadows, and closing the scope restores exactly what was there *)
@@ -107,3 +107,18 @@ Theorem C06_too_deep_is_error :
   Gen.Tables.max_call_depth <> 0 -> Gen.Tables.max_call_depth <= N.of_nat (env_depth (menv m)) ->
   exists m', exec o consts funcs fns obj (S k) code ip m = (OErr EScript, m').
 Proof. exact CallProofs.too_deep_is_error. Qed.
+
+(* Whole scripts with user-defined functions: running the compiled program - main body, function
+   table, calls (recursive ones too), parameters, `local`, returns from inside loops - behaves exactly
+   as the reference interpreter of Spec/ExecFun.v, which runs a call in a fresh frame that hides the
+   caller's locals, binds the parameters there, and discards the frame when the call ends.
+   Side condition: array literals and argument lists have fewer than 65536 entries (longer ones exist
+   only with value-less entries; see the refutation below and known finding D19). *)
+Theorem C06_program_compile_correct : forall (o : stdlib) (fns : fnmap) (p : program),
+  ProgProofs.plain_program p = true -> program_compile_correct o fns p.
+Proof. exact ProgProofs.program_compile_correct_partial. Qed.
+
+(* the side condition cannot be dropped *)
+Theorem C06_program_compile_correct_needs_short_lists :
+  ~ (forall (o : stdlib) (fns : fnmap) (p : program), program_compile_correct o fns p).
+Proof. exact ProgProofs.program_compile_correct_all_false. Qed.
